@@ -13,6 +13,7 @@ import (
 	"strconv"
 	"strings"
 	"sync"
+	"syscall"
 	"time"
 
 	"github.com/FollowTheProcess/spok/hash"
@@ -628,7 +629,213 @@ func c04Sensitivity(run *ev.Run, tier string) (collections int, pairs int64) {
 	}
 	n := int64(len(all))
 	lp := c04LongLists(run)
+	lp += c04Environment(run)
 	return len(all), n*(n-1)/2 + lp
+}
+
+// c04Environment: the same (path, content) pairs under different circumstances must give the same
+// digest, different contents at the same path a different one - for the corners of the environment:
+// a link re-pointed to another file with the same bytes, a file that reports size 0 but has
+// content (procfs), the number of usable CPUs, and two files on different file systems that
+// share an inode number.
+func c04Environment(run *ev.Run) int64 {
+	var n int64
+	root := filepath.Join(pool.Scratch, "envsens")
+	os.RemoveAll(root)
+	os.MkdirAll(filepath.Join(root, "t"), 0o755)
+	defer os.RemoveAll(root)
+	hashOf := func(what string, l []string) (string, bool) {
+		d, err, crash := freeHash(l)
+		n++
+		if crash != "" {
+			freeHashReport(run, what, crash)
+			return "", false
+		}
+		if err != nil {
+			run.Report(ev.Violation{Key: "env " + what, Class: "error-on-readable-files", What: fmt.Sprintf("%s: Hash returned %v", what, err), Case: map[string]any{"environment": what}})
+			return "", false
+		}
+		return d, true
+	}
+	// 1. a link re-pointed between two files with identical bytes
+	os.WriteFile(filepath.Join(root, "t", "one"), []byte("same bytes"), 0o644)
+	os.WriteFile(filepath.Join(root, "t", "two"), []byte("same bytes"), 0o644)
+	lnk := filepath.Join(root, "cfg")
+	os.Symlink(filepath.Join("t", "one"), lnk)
+	d1, ok1 := hashOf("link to t/one", []string{lnk})
+	os.Remove(lnk)
+	os.Symlink(filepath.Join("t", "two"), lnk)
+	d2, ok2 := hashOf("link to t/two", []string{lnk})
+	if ok1 && ok2 && d1 != d2 {
+		run.Report(ev.Violation{Key: "env relinked", Class: "same-files-different-digest", What: "a dependency that is a symbolic link was re-pointed to another file with identical bytes: same path, same content, different digest", Case: map[string]any{"environment": "relinked"}})
+	}
+	// ... and the directory the list is reached through is a link that is re-pointed
+	for _, r := range []string{"rel1", "rel2"} {
+		os.MkdirAll(filepath.Join(root, r), 0o755)
+		os.WriteFile(filepath.Join(root, r, "f"), []byte("same bytes"), 0o644)
+	}
+	cur := filepath.Join(root, "current")
+	os.Symlink("rel1", cur)
+	d1, ok1 = hashOf("current -> rel1", []string{filepath.Join(cur, "f")})
+	os.Remove(cur)
+	os.Symlink("rel2", cur)
+	d2, ok2 = hashOf("current -> rel2", []string{filepath.Join(cur, "f")})
+	if ok1 && ok2 && d1 != d2 {
+		run.Report(ev.Violation{Key: "env relinked dir", Class: "same-files-different-digest", What: "the directory a dependency is reached through is a symbolic link that was re-pointed to a directory with identical files: same path, same content, different digest", Case: map[string]any{"environment": "relinked-dir"}})
+	}
+	// 2. a file whose size is reported as 0 although it has content, and whose content changes
+	if b1, err := os.ReadFile("/proc/uptime"); err == nil && len(b1) > 0 {
+		if st, err := os.Stat("/proc/uptime"); err == nil && st.Size() == 0 {
+			d1, ok1 := hashOf("/proc/uptime", []string{"/proc/uptime"})
+			var d2 string
+			var ok2 bool
+			for try := 0; try < 50 && ok1; try++ {
+				time.Sleep(30 * time.Millisecond)
+				if b2, _ := os.ReadFile("/proc/uptime"); string(b2) != string(b1) {
+					d2, ok2 = hashOf("/proc/uptime later", []string{"/proc/uptime"})
+					break
+				}
+			}
+			if ok1 && ok2 && d1 == d2 {
+				run.Report(ev.Violation{Key: "env size0", Class: "content-change-keeps-digest", What: "/proc/uptime (size reported as 0, content present and changing): the digest is the same before and after its content changed", Case: map[string]any{"environment": "size-0-with-content"}})
+			}
+		}
+	}
+	// 3. the number of usable CPUs
+	var files []string
+	for i := 0; i < 7; i++ {
+		f := filepath.Join(root, fmt.Sprintf("c%d", i))
+		os.WriteFile(f, []byte(fmt.Sprintf("content %d", i)), 0o644)
+		files = append(files, f)
+	}
+	old := runtime.GOMAXPROCS(0)
+	ref := ""
+	for _, procs := range []int{old, 1, 2, 3, 4} {
+		runtime.GOMAXPROCS(procs)
+		for _, k := range []int{2, 3, 5, 7} {
+			for _, rev := range []bool{false, true} {
+				l := append([]string{}, files[:k]...)
+				if rev {
+					for i, j := 0, len(l)-1; i < j; i, j = i+1, j-1 {
+						l[i], l[j] = l[j], l[i]
+					}
+				}
+				d, ok := hashOf(fmt.Sprintf("GOMAXPROCS=%d, %d files", procs, k), l)
+				key := fmt.Sprintf("%d", k)
+				if !ok {
+					continue
+				}
+				if procs == old && !rev {
+					ref += key + "=" + d + ";"
+				} else if !strings.Contains(ref, key+"="+d+";") {
+					run.Report(ev.Violation{Key: fmt.Sprintf("env procs %d %d %v", procs, k, rev), Class: "digest-depends-on-order-or-cpus", What: fmt.Sprintf("%d files hashed with GOMAXPROCS=%d (list reversed: %v) give another digest than with GOMAXPROCS=%d", k, procs, rev, old), Case: map[string]any{"environment": "gomaxprocs"}})
+				}
+			}
+		}
+	}
+	runtime.GOMAXPROCS(old)
+	// 4. two regular files on different file systems with the same inode number and different content
+	if a, b, ok := inodeTwins(); ok {
+		var fill []string
+		for i := 0; i < 400; i++ {
+			f := filepath.Join(root, fmt.Sprintf("fill%03d", i))
+			os.WriteFile(f, []byte(fmt.Sprintf("filler %d", i)), 0o644)
+			fill = append(fill, f)
+		}
+		ab := append(append([]string{a}, fill...), b)
+		ba := append(append([]string{b}, fill...), a)
+		var ds []string
+		for rep := 0; rep < 3; rep++ {
+			for _, l := range [][]string{ab, ba} {
+				if d, ok := hashOf("inode twins "+a+" / "+b, l); ok {
+					ds = append(ds, d)
+				}
+			}
+		}
+		for _, d := range ds {
+			if d != ds[0] {
+				run.Report(ev.Violation{Key: "env inode twins", Class: "digest-depends-on-order", What: fmt.Sprintf("%s and %s are different files on different file systems with the same inode number: the digest of a list holding both depends on which comes first", a, b), Case: map[string]any{"environment": "inode-twins", "a": a, "b": b}})
+				break
+			}
+		}
+		run.Set("inode_twins_checked", a+" / "+b)
+	} else {
+		run.Set("inode_twins_checked", "none found on this machine")
+	}
+	return n
+}
+
+// inodeTwins looks for two readable regular files with equal inode numbers, different device
+// numbers and different content (sysfs against the root file system).
+func inodeTwins() (string, string, bool) {
+	type ent struct {
+		path string
+		dev  uint64
+	}
+	byIno := map[uint64]ent{}
+	count := 0
+	// inode numbers only (reading arbitrary sysfs files is left to the few candidates below)
+	filepath.WalkDir("/sys", func(p string, d os.DirEntry, err error) error {
+		if err != nil {
+			return nil
+		}
+		if count > 300000 {
+			return filepath.SkipAll
+		}
+		if d.Type().IsRegular() {
+			if info, err := d.Info(); err == nil && info.Mode().Perm()&0o444 == 0o444 {
+				if st, ok := info.Sys().(*syscall.Stat_t); ok {
+					byIno[st.Ino] = ent{p, uint64(st.Dev)}
+					count++
+				}
+			}
+		}
+		return nil
+	})
+	readQuick := func(p string) []byte {
+		ch := make(chan []byte, 1)
+		go func() {
+			b, _ := os.ReadFile(p)
+			ch <- b
+		}()
+		select {
+		case b := <-ch:
+			return b
+		case <-time.After(2 * time.Second):
+			return nil
+		}
+	}
+	var a, b string
+	for _, base := range []string{"/usr/share", "/usr/lib", "/etc"} {
+		seen := 0
+		filepath.WalkDir(base, func(p string, d os.DirEntry, err error) error {
+			if err != nil {
+				return nil
+			}
+			if a != "" || seen > 300000 {
+				return filepath.SkipAll
+			}
+			seen++
+			if d.Type().IsRegular() {
+				if info, err := d.Info(); err == nil {
+					if st, ok := info.Sys().(*syscall.Stat_t); ok {
+						if e, hit := byIno[st.Ino]; hit && e.dev != uint64(st.Dev) && info.Mode().Perm()&0o444 == 0o444 && info.Size() > 0 && info.Size() < 1<<20 {
+							x := readQuick(e.path)
+							y, _ := os.ReadFile(p)
+							if len(x) > 0 && len(x) < 1<<16 && len(y) > 0 && string(x) != string(y) && string(readQuick(e.path)) == string(x) {
+								a, b = e.path, p
+							}
+						}
+					}
+				}
+			}
+			return nil
+		})
+		if a != "" {
+			return a, b, true
+		}
+	}
+	return "", "", false
 }
 
 // c04LongLists: list sizes around and beyond the worker-count boundary. Under the
